@@ -10,8 +10,10 @@ RULE = ('exhaustive core: every assignment of an 18-letter connector alphabet ({
         'repeated flag) to 1x1, 1x2, 2x1 (all) and 2x2 (all in thorough, every 16th in quick) shapes with all existence '
         'patterns; random: G-MAT settings up to 3x3 with exclusions, explicit parallel limits and override patterns; '
         'oracle = R-CONN brute force: enumerated set == reference set without duplicates, validate_matrix == membership '
-        'over the limit box (+1), counts == sizes, iter_matrices == same multiset, and a cold on-disk cache first touched by a per-pattern iteration gives the same full enumeration afterwards; non-trivial = some pattern has >= 2 '
+        'over the limit box (+1), counts == sizes, iter_matrices == same multiset, a cold on-disk cache first touched by a per-pattern iteration gives the same full enumeration afterwards, and (warm-versus-cold) sequences of 2-6 settings processed in one process without clearing the module-level LRU caches each still equal their reference; non-trivial = some pattern has >= 2 '
         'valid matrices and some box matrix is rejected; distinct by sha1(settings)')
+# (no atheris campaign: instrumenting matrix.py breaks its numba-jitted functions - TypingError on the inserted
+# _trace_branch calls - see DESIGN.md 10.5)
 BUDGET = {'quick': 400, 'thorough': 8000}
 EXHAUSTIVE = {'quick': False, 'thorough': False}  # the core is exhaustive, the random part is not
 BOX_MAX = 3000
@@ -27,6 +29,29 @@ def fixed_cases(tier):
 
 
 def check_case(case):
+    if 'seq' in case:
+        # warm-versus-cold: several settings processed in ONE process without clearing the module-level LRU caches (which
+        # hand out shared numpy arrays); every one must still equal its (cold) reference
+        build.ensure_path()
+        build.reset_globals()
+        total = Result()
+        total.classes = ['warm_sequence']
+        for i, ms in enumerate(case['seq']):
+            r = _check_one({'ms': ms, 'warm': True})
+            total.evaluations += r.evaluations
+            total.nontrivial = total.nontrivial or (r.nontrivial and i > 0)
+            for v in r.violations:
+                v['detail'] = f'[setting {i+1} of a warm sequence of {len(case["seq"])}] '+v['detail']
+                v['data'] = dict(v.get('data') or {}, warm_position=i)
+                total.add(v)
+            if r.excluded:
+                total.excluded = True
+        total.sample = {'sequence_of_settings': [{k: m[k] for k in ('src', 'tgt', 'excl', 'par')} for m in case['seq']]}
+        return total
+    return _check_one(case)
+
+
+def _check_one(case):
     from adsg_core.optimization.assign_enc.matrix import AggregateAssignmentMatrixGenerator
     res = Result()
     ms = case['ms']
@@ -158,3 +183,9 @@ def check_case(case):
     res.sample = {'settings': {k: ms[k] for k in ('src', 'tgt', 'excl', 'par')}, 'n_patterns': len(pats),
                   'reference_sizes': sizes}
     return res
+
+
+def extra_campaigns(tier):
+    n = 40 if tier == 'quick' else 800
+    seq = st.fixed_dictionaries({'seq': st.lists(matspec.mat_spec(max_side=3, max_patterns=3), min_size=2, max_size=6)})
+    return [('warm_sequences', seq, n)]
